@@ -259,6 +259,57 @@ func crossProcess(t *testing.T, st *Stats, n int) {
 	}
 }
 
+// bigFilesCase: several files of a MiB and more (sizes not in name order) between small ones - the shape in which
+// work handed to background goroutines or size-dependent block splitting shows up as schedule-dependent bytes.
+func bigFilesCase(variant int) *BuildCase {
+	c := &BuildCase{
+		Meta:  Meta{Name: "bigfiles", Arch: "amd64", Version: "1.0.0", Maintainer: "V <v@example.com>", Description: "big"},
+		MTime: 1000000000, RPMBuildHost: "h", RPMCompression: []string{"gzip", "zstd"}[variant%2], DebCompression: []string{"gzip", "zstd", "none"}[variant%3],
+	}
+	sizes := []int{1<<20 + 70000, 200, 1<<20 + 900000, 1 << 20, 3000, 1<<20 + 300000}
+	for i, sz := range sizes {
+		rel := fmt.Sprintf("src/big/f%d.bin", i)
+		c.Tree = append(c.Tree, FNode{Rel: rel, Kind: "file", Size: sz, Seed: 3*i + 1 + variant, Mode: 0o644, MTime: 900000000 + int64(i)})
+	}
+	c.Tree = append(c.Tree, FNode{Rel: "src/big", Kind: "dir", Mode: 0o755, MTime: 900000000})
+	c.Contents = []Entry{{Src: "src/big", Dst: "/opt/big", Form: "dir"}, {Src: "src/big/f1.bin", Dst: "/etc/big.conf", Type: "config", Form: "single"}}
+	return c
+}
+
+func checkRepeatedBuilds(c *BuildCase, reps int) []Violation {
+	var vs vlist
+	err := c.withRoot(func(root string) error {
+		first := map[string][]byte{}
+		prev := runtime.GOMAXPROCS(0)
+		defer runtime.GOMAXPROCS(prev)
+		for _, procs := range []int{prev, 1, 2, 4} {
+			runtime.GOMAXPROCS(procs)
+			for r := 0; r < reps; r++ {
+				for _, f := range c.formats() {
+					out, err := c.BuildOne(root, f)
+					if err != nil {
+						vs.add("C07.build", f, "%v", err)
+						return nil
+					}
+					if first[f] == nil {
+						first[f] = out
+						continue
+					}
+					if !bytes.Equal(out, first[f]) {
+						vs.add("C07.rebuild-differs", f, "build %d at GOMAXPROCS=%d differs from the first build (%d vs %d bytes)%s", r, procs, len(out), len(first[f]), describeDiff(f, out, first[f]))
+						return nil
+					}
+				}
+			}
+		}
+		return nil
+	})
+	if err != nil {
+		panic(err)
+	}
+	return vs
+}
+
 func TestC07(t *testing.T) {
 	st := newStats("C07")
 	defer st.Flush()
@@ -273,6 +324,11 @@ func TestC07(t *testing.T) {
 		n = 40
 	}
 	crossProcess(t, st, n)
+	for v := 0; v < map[bool]int{false: 1, true: 4}[thorough()]; v++ {
+		bc := bigFilesCase(v + envInt("VERIF_SEED", 0))
+		st.Record(bc, true, "big-files-repeated-builds")
+		st.Report(t, bc, checkRepeatedBuilds(bc, 2))
+	}
 	rapid.Check(t, func(rt *rapid.T) {
 		c := genReproCase(rt)
 		labels, _, _ := classifyBuildCase(c)
